@@ -147,9 +147,9 @@ def units(tier):
              shards=(16, 64), space=_space(tier).describe() + " as 0/1 float64"),
         Unit("exhaustive-lengths", check, count=c03._w_total, cases=c03._w_cases, shards=(16, 64),
              space="; ".join(sp.describe() for sp in c03._wspace(tier)) + " used as length matrices (every tie pattern on these sizes)"),
-        Unit("random-binary", check, strategy=lambda: cases(12, ["bin"]), examples=(400, 6000), shards=(4, 16)),
-        Unit("random-lengths", check, strategy=lambda: cases(9, ["len"]), examples=(1000, 16000), shards=(8, 16)),
-        Unit("random-lengths-large", check, strategy=lambda: cases(14, ["len"]), examples=(200, 4000), shards=(4, 16)),
+        Unit("random-binary", check, strategy=lambda: cases(12, ["bin"]), examples=(400, 12000), shards=(4, 16)),
+        Unit("random-lengths", check, strategy=lambda: cases(9, ["len"]), examples=(1000, 32000), shards=(8, 16)),
+        Unit("random-lengths-large", check, strategy=lambda: cases(14, ["len"]), examples=(200, 8000), shards=(4, 16)),
     ]
     if tier == "thorough":
         us.append(Unit("sampled-digraphs-n5", check, count=_d5_count, cases=_d5_cases, shards=(16, 64),
